@@ -96,3 +96,47 @@ pub fn succinct(k: usize) -> Verdict {
     }
     Verdict::check(sp.evaluate(z) == acc, "succinct", format!("evaluate(z) != Horner(compute_coeffs(), z) for k={}", k))
 }
+
+/// the small conversions and predicates the combination code relies on (concrete; one path)
+pub fn lc_term_helpers() -> Verdict {
+    use core::convert::TryInto;
+    let t: LCTerm = String::from("p").into();
+    let t2: LCTerm = "p".into();
+    if t != t2 || t.is_one() || !LCTerm::One.is_one() {
+        return Verdict::viol("lc-term", "LCTerm conversions from a label disagree, or is_one is wrong");
+    }
+    if !(t == String::from("p")) || t == String::from("q") || LCTerm::One == String::from("p") || LCTerm::One == String::from("") {
+        return Verdict::viol("lc-term", "LCTerm == label comparison is wrong");
+    }
+    let back: Result<String, ()> = t.clone().try_into();
+    let back_ref: Result<&String, ()> = (&t).try_into();
+    let one: Result<String, ()> = LCTerm::One.try_into();
+    let one_ref: Result<&String, ()> = (&LCTerm::One).try_into();
+    if back != Ok("p".to_string()) || back_ref != Ok(&"p".to_string()) || one.is_ok() || one_ref.is_ok() {
+        return Verdict::viol("lc-term", "LCTerm -> label conversion is wrong");
+    }
+    let mut lc = LinearCombination::<SF>::empty("e");
+    if !lc.is_empty() || lc.label() != "e" {
+        return Verdict::viol("lc-empty", "an empty combination is not empty");
+    }
+    lc.push((SF::one(), LCTerm::One));
+    if lc.is_empty() || lc.terms.len() != 1 {
+        return Verdict::viol("lc-empty", "push did not add exactly one term");
+    }
+    let lc2 = LinearCombination::<SF>::new("n", vec![(SF::one(), "a"), (SF::one() + SF::one(), "b")]);
+    if lc2.terms.len() != 2 || lc2.terms[1].1 != LCTerm::PolyLabel("b".into()) || lc2.terms[1].0 != SF::one() + SF::one() || lc2.label() != "n" {
+        return Verdict::viol("lc-new", "LinearCombination::new does not keep its terms in order");
+    }
+    // labelled polynomial accessors
+    use ark_poly::{univariate::DensePolynomial, DenseUVPolynomial};
+    let p = DensePolynomial::<SF>::from_coefficients_vec(vec![SF::one(), SF::one()]);
+    let mut lp = LabeledPolynomial::new("l".into(), p.clone(), Some(3), Some(2));
+    if lp.label() != "l" || lp.degree_bound() != Some(3) || lp.hiding_bound() != Some(2) || !lp.is_hiding() || lp.polynomial() != &p || &*lp != &p {
+        return Verdict::viol("labeled-polynomial", "LabeledPolynomial accessors do not return what it was built from");
+    }
+    *lp.polynomial_mut() = DensePolynomial::<SF>::from_coefficients_vec(vec![SF::one()]);
+    if lp.polynomial().coeffs().len() != 1 || LabeledPolynomial::new("m".into(), p, None, None).is_hiding() {
+        return Verdict::viol("labeled-polynomial", "polynomial_mut / is_hiding are wrong");
+    }
+    Verdict::Hold
+}
